@@ -328,7 +328,8 @@ OPERATORS = ["rename-field", "leaf-subselection", "composite-no-selection", "unk
              "bad-directive-arg", "dup-operation", "extra-anonymous", "subscription-two-roots", "undefined-variable-in-directive",
              "inline-on-enum", "inline-on-input", "inline-on-scalar", "retarget-inline", "fragment-on-enum", "fragment-on-input",
              "unreached-self-cycle", "unreached-mutual-cycle", "fault-behind-unreached-cycle",
-             "subscription-second-alias", "subscription-second-alias-inline", "subscription-second-alias-spread"]
+             "subscription-second-alias", "subscription-second-alias-inline", "subscription-second-alias-spread",
+             "nullable-var-in-defaulted-list"]
 
 
 def inject(doc, operator, site, disjoint_type="Lone", names=None):
@@ -494,6 +495,24 @@ def inject(doc, operator, site, disjoint_type="Lone", names=None):
         x = nth([o for o in ops if o["opType"] == "subscription"])
         if not x: return None
         x["sel"].append(G.field("__typename", "second"))
+    elif operator == "nullable-var-in-defaulted-list":
+        # an argument of type list-of-non-null that HAS a default in the schema gets the literal [$v] with a nullable variable without
+        # default: the element position is non-null and has no default of its own (the argument's default does not reach into the list)
+        sites = (names or {}).get("nnListDefaultSites") or []
+        cands = []
+        for s_, i_, where in sels:
+            f = s_[i_]
+            if f["k"] == "field":
+                for (fn, an, inner) in sites:
+                    if f["name"] == fn:
+                        cands.append((f, an, inner))
+        x = nth(cands)
+        if not x or not ops: return None
+        f, an, inner = x
+        f["args"] = [a for a in f["args"] if a["name"] != an] + [G.arg(an, {"k": "list", "vs": [G.v_var("nvl")]})]
+        for o in ops:
+            if not any(v["name"] == "nvl" for v in o["vars"]):
+                o["vars"].append(G.vardef("nvl", G.named(inner)))
     elif operator in ("subscription-second-alias", "subscription-second-alias-inline", "subscription-second-alias-spread"):
         # the SAME root field once more under another response key: two entries in the collected field set
         x = nth([o for o in ops if o["opType"] == "subscription" and o["sel"] and o["sel"][0]["k"] == "field"])
